@@ -121,7 +121,7 @@ func run(e *vlib.Env) vlib.Result {
 	cd := rn.Close(1)
 	if o, _ := vlib.WaitClosed(cd, vlib.WD); o != vlib.Done {
 		res.Count("teardown_close_not_returned", 1)
-	} else if o, _ := vlib.WaitClosed(rn.ConsumersDone(), vlib.WD); o != vlib.Done {
+	} else if o, _ := vlib.WaitUntil(rn.ConsumersIdle, vlib.WD); o != vlib.Done {
 		res.Count("teardown_consumers_not_finished", 1)
 	}
 	return res
